@@ -3,6 +3,7 @@ package rules
 import (
 	"fmt"
 	"go/token"
+	"go/types"
 	"strings"
 
 	"golang.org/x/tools/go/ssa"
@@ -526,7 +527,20 @@ func c13Swaps(p *ana.Prog, r *ana.Result, fn *ssa.Function, rd *ssa.Call, reply 
 				}
 			}
 		}
-		if ld := ana.AccessPath(rb.Call.Value); pathStored && strings.HasSuffix(ld, "scionLayer.Path") {
+		ld := ana.AccessPath(rb.Call.Value)
+		if strings.HasSuffix(ld, ".Path") && !strings.HasSuffix(ld, "scionLayer.Path") {
+			// the path of a snapshot copy of the received header
+			if a, ok := rootAlloc(rb.Call.Value).(*ssa.Alloc); ok {
+				for _, ref := range ana.Referrers(a) {
+					if st, ok := ref.(*ssa.Store); ok && st.Addr == ssa.Value(a) {
+						if src, ok := st.Val.(*ssa.UnOp); ok && src.Op == token.MUL && strings.HasSuffix(ana.AccessPath(src.X), "scionLayer") {
+							ld = "scionLayer.Path"
+						}
+					}
+				}
+			}
+		}
+		if pathStored && strings.HasSuffix(ld, "scionLayer.Path") {
 			r.Ok("C13.swap", fname, a.name+":path-reversed", posOf(p, a.rev), "scionLayer.Path <- scionLayer.Path.Reverse()")
 		} else {
 			r.Violate("C13.swap", fname, a.name+":path-reversed", posOf(p, a.rev), "the reversed path is not what is stored in the reply's SCION header")
@@ -603,34 +617,105 @@ func c13Swaps(p *ana.Prog, r *ana.Result, fn *ssa.Function, rd *ssa.Call, reply 
 
 // swapInRegion: in blk there are stores x <- (old y) and y <- (old x) where the
 // old values are loaded before both stores.
+// swapInRegion: along the straight-line code starting at blk the contents of the two fields x and y
+// are exchanged. The code is followed with a small symbolic store (each location holds the name of
+// the original value it now contains), so the exchange may be written as a tuple assignment, with
+// temporaries, or from a snapshot copy of the whole header taken before.
 func swapInRegion(fn *ssa.Function, blk *ssa.BasicBlock, x, y string) bool {
-	var sx, sy *ssa.Store
-	for _, in := range blk.Instrs {
-		if st, ok := in.(*ssa.Store); ok {
-			switch ana.AccessPath(st.Addr) {
-			case x:
-				sx = st
-			case y:
-				sy = st
+	mem := map[string]string{}    // location -> token
+	reg := map[ssa.Value]string{} // loaded value -> token
+	snap := map[ssa.Value]map[string]string{}
+	tok := func(loc string) string {
+		if t, ok := mem[loc]; ok {
+			return t
+		}
+		return "old:" + loc
+	}
+	touched := false
+	cur := blk
+	for n := 0; n < 8 && cur != nil; n++ {
+		for _, in := range cur.Instrs {
+			switch v := in.(type) {
+			case *ssa.UnOp:
+				if v.Op != token.MUL {
+					continue
+				}
+				loc := ana.AccessPath(v.X)
+				if loc == "" {
+					continue
+				}
+				if _, isStruct := v.Type().Underlying().(*types.Struct); isStruct {
+					// snapshot of every field known so far (others are still the originals)
+					m := map[string]string{"": loc}
+					for k, t := range mem {
+						if strings.HasPrefix(k, loc+".") {
+							m[k[len(loc):]] = t
+						}
+					}
+					snap[v] = m
+					continue
+				}
+				reg[v] = tok(loc)
+			case *ssa.Store:
+				loc := ana.AccessPath(v.Addr)
+				if loc == "" {
+					continue
+				}
+				if m, ok := snap[v.Val]; ok {
+					// whole-struct copy: every field of loc now holds what the source held
+					for k := range mem {
+						if strings.HasPrefix(k, loc+".") {
+							delete(mem, k)
+						}
+					}
+					for k, t := range m {
+						if k != "" {
+							mem[loc+k] = t
+						}
+					}
+					mem[loc+".*"] = m[""] // fields not listed come from the source's originals
+					continue
+				}
+				if t, ok := reg[v.Val]; ok {
+					mem[loc] = t
+				} else {
+					mem[loc] = "other"
+				}
+				if loc == x || loc == y {
+					touched = true
+				}
 			}
 		}
+		// follow an unconditional jump into a block entered only from here
+		if len(cur.Succs) == 1 && len(cur.Succs[0].Preds) == 1 {
+			cur = cur.Succs[0]
+		} else {
+			cur = nil
+		}
 	}
-	if sx == nil || sy == nil {
+	if !touched {
 		return false
 	}
-	lx, ok1 := sx.Val.(*ssa.UnOp)
-	ly, ok2 := sy.Val.(*ssa.UnOp)
-	if !ok1 || !ok2 {
-		return false
+	// resolve tokens that came through a snapshot copy: "old:rcvd.F" with rcvd.* = src
+	resolve := func(t string) string {
+		for i := 0; i < 4; i++ {
+			if !strings.HasPrefix(t, "old:") {
+				return t
+			}
+			loc := t[4:]
+			k := strings.LastIndex(loc, ".")
+			if k < 0 {
+				return t
+			}
+			src, ok := mem[loc[:k]+".*"]
+			if !ok {
+				return t
+			}
+			t = "old:" + src + loc[k:]
+		}
+		return t
 	}
-	if ana.AccessPath(lx) != y || ana.AccessPath(ly) != x {
-		return false
-	}
-	first := instrIndex(sx)
-	if i := instrIndex(sy); i < first {
-		first = i
-	}
-	return lx.Block() == blk && ly.Block() == blk && instrIndex(lx) < first && instrIndex(ly) < first
+	return resolve(tok(x)) == "old:"+y && resolve(tok(y)) == "old:"+x
 }
 
 func c13Forward(p *ana.Prog, r *ana.Result, fn *ssa.Function, rd *ssa.Call) {
